@@ -104,6 +104,14 @@ let mgr = function
       let segss = List.mapi (fun i (b, _) -> segments (bytes_of_hexatom b) m (n_of_int i)) sent in
       let mdel = List.sort compare (List.map (fun (_, bs) -> hex_of_bytes bs) (rx_delivered (List.concat segss))) in
       if mdel <> del then add (Mismatch (name ^ ": delivered bundles: model " ^ string_of_int (List.length mdel) ^ " impl " ^ string_of_int (List.length del)));
+      (* theorem C11_bundles: every byte string the model receiver hands up parses with Model/Bundle.v dec_bundle,
+         completely, as a bundle that serialises to these bytes (the implementation parsed it to hand it up;
+         now = 0: no wall-clock lifetime check) *)
+      List.iter (fun (_, bs) ->
+          match dec_bundle (n_of_int 0) bs with
+          | Some (b, []) -> if enc_bundle b <> Some bs then add (Mismatch (name ^ ": a handed-up bundle re-serialises differently in the model"))
+          | _ -> add (Mismatch (name ^ ": the model's bundle decoder does not accept, completely, what the receiver hands up")))
+        (rx_delivered (List.concat segss));
       List.iteri (fun i (b, res) ->
           let bs = bytes_of_hexatom b in
           let segs = List.nth segss i in
